@@ -20,6 +20,7 @@ mod faults;
 mod limits;
 mod encode;
 mod images;
+mod corrupt;
 
 use std::collections::HashMap;
 
@@ -77,6 +78,7 @@ fn main() {
         "faults" => faults::main(&args),
         "limits" => limits::main(&args),
         "images" => images::main(&args),
+        "corrupt" => corrupt::main(&args),
         "summary-random" => summary::random_main(&args),
         "repr" => {
             // representability facts (reference encoder) for the characters the bounded models use
